@@ -81,7 +81,8 @@ try:
         rc, out = sh("go build ./...", cwd=wt)
         meta["steps"]["builds"] = rc == 0
     if not skip_suite and not recheck:
-        rc, out = sh(f"python3 /verif/tools/stable_tests.py {wt}", timeout=3000)
+        # a private network namespace keeps the fixed-port integration tests from clashing with other jobs
+        rc, out = sh(f"unshare -n sh -c 'ip link set lo up; python3 /verif/tools/stable_tests.py {wt}' || python3 /verif/tools/stable_tests.py {wt}", timeout=4000)
         meta["steps"]["stable_tests_pass"] = rc == 0
         meta["steps"]["stable_tests_output"] = out.strip().splitlines()[:6]
     if not recheck:
